@@ -148,6 +148,21 @@ func c04(ctx *Ctx) {
 			Schema: J{"type": "object", "properties": J{"x": J{"$ref": "#/$defs/limits"}, "y": J{"$ref": "#/$defs/Limits"}}, "$defs": J{"limits": mk(pair[0]), "Limits": mk(pair[1])}}})
 	}
 	runBehaviour(ctx, behaviour{Name: "same-type-name", Cases: same, Devs: c04Devs, K: 1})
+	// required properties whose names carry characters that mean something in the emitted check (the name is pasted into a map lookup and
+	// into a format string): names that the struct-tag syntax can carry
+	var named []SCase
+	for _, n := range []string{"cpu%", "%d items", "100%%", "a b", "x.y", "a-b", "ünï", "A", "_"} {
+		for _, nullable := range []bool{false, true} {
+			ps := J{"type": "string"}
+			if nullable {
+				ps = J{"type": A{"string", "null"}}
+			}
+			id := fmt.Sprintf("C04/special-name/%q/nullable=%v", n, nullable)
+			named = append(named, SCase{ID: id, Cfg: baseCfg(), Axes: map[string]string{"pos": "special-name", "leaf": n},
+				Schema: J{"type": "object", "properties": J{n: ps, "other": J{"type": "integer"}}, "required": A{n}}})
+		}
+	}
+	runBehaviour(ctx, behaviour{Name: "special-names", Cases: named, Devs: c04Devs, K: 1})
 	ctx.Run.Assume("a property that declares a default is never required (statement: 'and not given a default')",
 		"null for a required non-nullable property is outside the statement and not generated")
 }
